@@ -169,6 +169,11 @@ impl Lin {
         let smax = self.svd.smax();
         let r = self.b.sub(&self.a.mul(c));
         let g = self.a.t().mul(&r);
+        if !r.all_finite() || !g.all_finite() || !(smax * smax).is_finite() {
+            // entries so large that the oracle's own f64 arithmetic overflows: no verdict
+            skipped.push("c01.all:oracle-arithmetic-overflows".into());
+            return Ok(skipped);
+        }
         // the reference pipeline's own backward error, column by column
         let g_ref: Option<Mat> = self.c_ref.as_ref().filter(|c| c.all_finite() && (c.r, c.c) == (self.m, self.s)).map(|cr| self.a.t().mul(&self.b.sub(&self.a.mul(cr))));
         for col in 0..self.s {
@@ -180,7 +185,9 @@ impl Lin {
             // most (eps+delta) |r| each, kept directions only rounding
             let dropped_allow = if self.class == RankClass::ClearFull { 0.0 } else { (self.eps + self.delta) * rn * (self.m as f64).sqrt() };
             let ref_allow = g_ref.as_ref().map(|g| 4.0 * norm2(g.col(col))).unwrap_or(0.0);
-            let bound = (k * self.ut * smax * (bn + smax * cn) + dropped_allow).max(ref_allow);
+            // absolute slack for quantities in the subnormal range of the scalar type under test
+            let slack = smax * (self.n as f64) * self.tiny * (1.0 + smax);
+            let bound = (k * self.ut * smax * (bn + smax * cn) + dropped_allow + slack).max(ref_allow);
             if !(gn <= bound) {
                 return Err(Fail::new(
                     "c01.normal_equations",
@@ -231,7 +238,7 @@ impl Lin {
                                 4.0 * n2.sqrt()
                             })
                             .unwrap_or(0.0);
-                        let bound = (kf * self.ut * kappa * cn + f64::MIN_POSITIVE).max(ref_null);
+                        let bound = (kf * self.ut * kappa * cn + self.m as f64 * self.tiny).max(ref_null);
                         if !(nullc <= bound) {
                             return Err(Fail::new(
                                 "c01.min_norm",
@@ -252,7 +259,7 @@ impl Lin {
                         .as_ref()
                         .map(|cr| 4.0 * norm2(&cr.col(col).iter().zip(co.col(col)).map(|(x, y)| x - y).collect::<Vec<f64>>()))
                         .unwrap_or(0.0);
-                    let bound = (kf * self.ut * kappa * (cn + bn / sk) + f64::MIN_POSITIVE).max(ref_dev);
+                    let bound = (kf * self.ut * kappa * (cn + bn / sk) + self.m as f64 * self.tiny * (1.0 + 1.0 / sk)).max(ref_dev);
                     if !(dn <= bound) {
                         return Err(Fail::new(
                             "c01.forward",
@@ -392,7 +399,9 @@ pub fn check_jacobian<T: Sc>(prob: &dyn Prob<T>, lin: &Lin, c: &Mat, jac: &DMatr
             let atj = lin.a.t().mul(&Mat::col_vec(jk.col(s)));
             let an = norm2(&atj.d);
             let ref_a = j_ref.as_ref().map(|j| 4.0 * norm2(&lin.a.t().mul(&Mat::col_vec(j.col(s))).d)).unwrap_or(0.0);
-            let bound_a = (kf * lin.ut * smax * vn + f64::MIN_POSITIVE).max(ref_a);
+            // absolute slack: entries of J in the subnormal range of T carry an absolute error of ~tiny
+            let slack = (sh.n as f64) * lin.tiny;
+            let bound_a = (kf * lin.ut * smax * vn + smax * slack).max(ref_a);
             if !(an <= bound_a) {
                 return Err(Fail::new(
                     "c03.orthogonal_to_range",
@@ -409,7 +418,7 @@ pub fn check_jacobian<T: Sc>(prob: &dyn Prob<T>, lin: &Lin, c: &Mat, jac: &DMatr
                     .as_ref()
                     .map(|j| 4.0 * norm2(&j.col(s).iter().zip(want.col(s)).map(|(a, b)| a - b).collect::<Vec<f64>>()))
                     .unwrap_or(0.0);
-                let bound_b = (kfw * lin.ut * kappa * vn + f64::MIN_POSITIVE).max(ref_c);
+                let bound_b = (kfw * lin.ut * kappa * vn + slack).max(ref_c);
                 if !(out <= bound_b) {
                     return Err(Fail::new(
                         "c03.complement_in_range",
